@@ -3,6 +3,7 @@ package bcl
 import (
 	"fmt"
 	"reflect"
+	"sort"
 	"strings"
 	"unicode"
 	"unicode/utf8"
@@ -56,6 +57,9 @@ func copyBlocks(target any, binding Binding) error {
 }
 
 func copyBlock(v reflect.Value, block Block) error {
+	if k := v.Kind(); k != reflect.Struct {
+		return fmt.Errorf("block %s: expected struct, have: %s", block.key(), k)
+	}
 	t := v.Type()
 	if st, bt := t.Name(), block.Type; st != "" && !unsnakeEq(st, bt) {
 		return fmt.Errorf("mismatch: struct type %s, block type %s", st, bt)
@@ -69,7 +73,10 @@ func copyBlock(v reflect.Value, block Block) error {
 		}
 	}
 
-	setField := func(name string, x any) error {
+	// used maps a struct field, by its index path, to the block key stored there
+	used := map[string]string{}
+
+	setField := func(name string, x any, optional bool) error {
 		var f reflect.StructField
 		var ok bool
 		if len(tagged) > 0 {
@@ -92,11 +99,28 @@ func copyBlock(v reflect.Value, block Block) error {
 			return fmt.Errorf("found field %q but is unexported", f.Name)
 		}
 
-		namei := f.Index[0]
+		if x == nil {
+			return fmt.Errorf("block.%s is nil, can't be stored in struct.%s", name, f.Name)
+		}
+		if !optional {
+			idx := fmt.Sprint(f.Index)
+			if other, ok := used[idx]; ok {
+				return fmt.Errorf("both block.%s and block.%s map to struct.%s", other, name, f.Name)
+			}
+			used[idx] = name
+		}
+
+		fv, err := v.FieldByIndexErr(f.Index)
+		if err != nil {
+			return err
+		}
+		if !fv.CanSet() {
+			return fmt.Errorf("found field %q but it can't be set", f.Name)
+		}
 		vx := reflect.ValueOf(x)
 
 		if vx.Type().AssignableTo(blockType) {
-			return copyBlock(v.Field(namei), x.(Block))
+			return copyBlock(fv, x.(Block))
 		}
 
 		if st, bt := f.Type, vx.Type(); !bt.AssignableTo(st) {
@@ -106,11 +130,11 @@ func copyBlock(v reflect.Value, block Block) error {
 			)
 		}
 
-		v.Field(namei).Set(vx)
+		fv.Set(vx)
 		return nil
 	}
 
-	err := setField("Name", block.Name)
+	err := setField("Name", block.Name, block.Name == "")
 	if err != nil {
 		if _, ok := err.(fieldMappingErr); block.Name == "" && ok {
 			goto fields
@@ -118,8 +142,14 @@ func copyBlock(v reflect.Value, block Block) error {
 		return err
 	}
 fields:
-	for fkey, fval := range block.Fields {
-		err = setField(fkey, fval)
+	// fixed order, so that with several faulty fields the same one is reported
+	fkeys := make([]string, 0, len(block.Fields))
+	for fkey := range block.Fields {
+		fkeys = append(fkeys, fkey)
+	}
+	sort.Strings(fkeys)
+	for _, fkey := range fkeys {
+		err = setField(fkey, block.Fields[fkey], false)
 		if err != nil {
 			return err
 		}
